@@ -2,6 +2,7 @@ package main
 
 import (
 	"fmt"
+	"strings"
 
 	"brvharness/internal/hx"
 )
@@ -439,6 +440,56 @@ func (g *gstate) saveLoadOp(withDumps bool) {
 	}
 }
 
+// cfgInvPattern: headers.Config.InvalidHeaderHashes. The configured hashes join the invalid list when the next
+// repository object is made and loaded: a header defined but never submitted must then be refused as marked
+// invalid; unmarking makes it acceptable; the next Load puts the configured hash back.
+func (g *gstate) cfgInvPattern() {
+	r := g.r
+	n := g.def(g.pick(true))
+	ids := []int{n.id}
+	if r.Chance(40) {
+		ids = append(ids, 6000+r.Intn(10))
+	}
+	if r.Chance(30) {
+		ids = append(ids, g.pick(true)) // already accepted: stays where it is
+	}
+	var parts []string
+	for _, id := range ids {
+		parts = append(parts, fmt.Sprint(id))
+	}
+	fmt.Printf("cfginv ids=[%s]\n", strings.Join(parts, ","))
+	if r.Chance(30) {
+		g.sub(n.id) // the running repository does not know the new configuration yet
+		n = g.def(g.pick(true))
+		fmt.Printf("cfginv ids=[%d]\n", n.id)
+	}
+	g.saveLoadOp(true)
+	g.marked = append(g.marked, n.id)
+	g.sub(n.id)
+	c := g.def(n.id)
+	g.sub(c.id)
+	if r.Chance(60) {
+		fmt.Printf("unmark id=%d\n", n.id)
+		for k, m := range g.marked {
+			if m == n.id {
+				g.marked = append(g.marked[:k], g.marked[k+1:]...)
+				break
+			}
+		}
+		g.sub(n.id)
+		g.sub(c.id)
+		if r.Chance(60) {
+			g.saveLoadOp(true)
+			c2 := g.def(n.id)
+			g.sub(c2.id)
+		}
+	}
+	if r.Chance(30) {
+		fmt.Println("cfginv ids=[]")
+	}
+	fmt.Println("dump")
+}
+
 func (g *gstate) crashOp() {
 	switch g.r.Pick(50, 35, 15) {
 	case 0:
@@ -605,7 +656,9 @@ func gen(seed uint64, scripts int, tier string, profile string) {
 			case 8:
 				g.crashOp()
 			case 9:
-				if len(g.marked) > 0 && r.Chance(40) {
+				if r.Chance(12) {
+					g.cfgInvPattern()
+				} else if len(g.marked) > 0 && r.Chance(40) {
 					k := r.Intn(len(g.marked))
 					id := g.marked[k]
 					g.marked = append(g.marked[:k], g.marked[k+1:]...)
